@@ -53,9 +53,15 @@ def _fresh_battery(seed='0', extra=None):
 def shards(tier, seed):
     global _BASE
     out = []
-    r = _fresh_battery('0')
+    # baseline: every (call, argument) of the battery computed in its own forked child of a fresh interpreter
+    r = _fresh_battery('0', {'BATTERY_MODE': 'isolated'})
     if r.returncode != 0:
         raise RuntimeError('battery failed in a fresh interpreter: ' + r.stderr[-500:])
+    rf = _fresh_battery('0')
+    fd3, path3 = tempfile.mkstemp(prefix='pmc_c17_fwd_', suffix='.json')
+    with os.fdopen(fd3, 'w') as fh:
+        fh.write(rf.stdout.splitlines()[0] if rf.returncode == 0 and rf.stdout else '{}')
+    _TMP.append(path3)
     rr = _fresh_battery('0', {'BATTERY_ORDER': 'rev'})
     fd2, path2 = tempfile.mkstemp(prefix='pmc_c17_rev_', suffix='.json')
     with os.fdopen(fd2, 'w') as fh:
@@ -66,7 +72,7 @@ def shards(tier, seed):
         fh.write(r.stdout.splitlines()[0])
     _BASE = path
     anames = list(B.CORPUS) + list(B.MARKERLESS)
-    out.append({'sub': 'order', 'base': path, 'rev': path2, 'bounds': 'the whole battery in a fresh interpreter, forward and in reverse order: every result identical'})
+    out.append({'sub': 'order', 'base': path, 'fwd': path3, 'rev': path2, 'bounds': 'every (call, argument) in its own forked child vs. the whole battery in one interpreter, forward and in reverse order: identical'})
     for a in anames:
         out.append({'sub': 'purity', 'arg': a, 'bounds': f'{len(B.calls())} calls x {len(anames)} arguments, in-place operations applied to every result'})
     for a1 in anames:
@@ -101,11 +107,12 @@ def cases(shard):
     sub = shard['sub']
     C = B.calls()
     if sub == 'order':
-        fwd = json.load(open(shard['base']))
+        iso = json.load(open(shard['base']))
+        fwd = json.load(open(shard['fwd']))
         rev = json.load(open(shard['rev']))
-        for k in sorted(set(fwd) | set(rev)):
+        for k in sorted(set(fwd) | set(rev) | set(iso)):
             if not k.startswith('cli'):
-                yield {'key': k, 'fwd': fwd.get(k), 'rev': rev.get(k)}
+                yield {'key': k, 'iso': iso.get(k), 'fwd': fwd.get(k), 'rev': rev.get(k)}
         return
     if sub == 'purity':
         for c, (needs, fn) in C.items():
@@ -212,9 +219,10 @@ def check(case, ctx):
     sub = ctx.sub
     if sub == 'order':
         ctx.transitions += 1
-        if case['fwd'] != case['rev']:
-            ctx.fail(f'result of {case["key"]} depends on which calls were made before it in the same interpreter (battery run forward vs. in reverse order)',
-                     expected=case['rev'], observed=case['fwd'])
+        if case['fwd'] != case['iso'] or case['rev'] != case['iso']:
+            bad = case['fwd'] if case['fwd'] != case['iso'] else case['rev']
+            ctx.fail(f'result of {case["key"]} depends on which calls were made before it in the same interpreter (isolated vs. whole battery forward / in reverse order)',
+                     expected=case['iso'], observed=bad)
         else:
             ctx.nontrivial += 1
         return
